@@ -496,7 +496,7 @@ def body(chk):
     run_lane(chk, Envelope, (2 if quick else 3,), bounds={'message ID': 'all of 1..2^31-1', 'controls': 'None | Some(0..%d) with symbolic OID/criticality/value' % (2 if quick else 3), 'protocolOp': 'any tag <= 30, symbolic content'},
              need_regions=('no-controls', 'controls-0', 'controls-1', 'boundary-length'))
     run_lane(chk, CloneResets, (), bounds={'pending modifiers on the original': 'every combination of controls / timeout / search options'}, selftest=False, need_regions=('all-set',))
-    sl = 2 if quick else 3
+    sl = 2 if quick else tier_param('C02', 3)
     run_lane(chk, Builders, (sl,), bounds={'strings (DNs, passwords, values)': f'{sl} symbolic bytes (UTF-8 where the API takes &str)', 'attributes / modifications': '1..2 with 0..2 values, every Mod variant', 'search': 'scope x deref x symbolic limits/typesOnly, 0..2 attributes, (a=v) filter template',
                                            'message ID': 'all of 1..2^31-1'}, selftest=False, need_regions=tuple(Builders.OPS))
     run_lane(chk, Modifiers, (1 if quick else 2,), bounds={'controls on the handle': 'None | Some(0..%d)' % (1 if quick else 2), 'timeout': 'absent | any u64 seconds', 'counter': 'any'}, selftest=False,
